@@ -2052,6 +2052,9 @@ impl Node {
         prev_outs: &[TxOut],
         uniclosekeys: Vec<Option<(SecretKey, Vec<Vec<u8>>)>>,
     ) -> Result<Vec<Vec<Vec<u8>>>, Status> {
+        // The tracker may be updated for multiple channels.  It comes before the channel
+        // map in the lock order (as in setup_channel, forget_channel and the heartbeat).
+        let mut tracker = self.get_tracker();
         let channels_lock = self.get_channels();
 
         // Funding transactions cannot be associated with just a single channel;
@@ -2227,9 +2230,6 @@ impl Node {
                 witvec.push(witness);
             }
         }
-
-        // The tracker may be updated for multiple channels
-        let mut tracker = self.get_tracker();
 
         // This locks channels in a random order, so we have to keep a global
         // lock to ensure no deadlock.  We grab the self.channels mutex above
